@@ -433,7 +433,9 @@ class LinearCombination(Expression):
         coefficients: np.ndarray,
         vector: VectorVariable | VectorExpression,
     ) -> None:
-        coefficients = np.asarray(coefficients)
+        # numeric data, copied: the node must not change when the caller reuses its
+        # buffer, and bool / narrow integer / float32 arrays compute in float64
+        coefficients = np.array(coefficients, dtype=np.float64)
         vector = _as_vector_operand(vector)
         vec_size = vector.size if hasattr(vector, "size") else len(vector)
         if len(coefficients) != vec_size:
@@ -1730,7 +1732,9 @@ def _reflected_vector_op(
     else:
         exprs = list(vector._expressions)
 
-    if isinstance(other, list) or (isinstance(other, np.ndarray) and other.ndim > 0):
+    if isinstance(other, (list, tuple)) or (
+        isinstance(other, np.ndarray) and other.ndim > 0
+    ):
         arr = np.asarray(other)
         if arr.ndim != 1:
             raise WrongDimensionalityError(
